@@ -293,6 +293,44 @@ func c08Run(t *testing.T, c c08Case) (res c08Result) {
 				if len(incs) > 0 && !incs[len(incs)-1].ended {
 					old = incs[len(incs)-1]
 				}
+				// watermark replay: if a source shard's stream is up (no re-establishment of it under way) and has read a
+				// watermark-only batch, a target stream that registers - first time or as a successor - is sent that watermark
+				replayDue := false
+				if o.Side == "T" && o.Order != "openFails" {
+					for i := 0; i < c.NS; i++ {
+						si := w.incsOf("S", i)
+						stable := len(si) > 0 && !si[len(si)-1].ended
+						for _, x := range si[:max(len(si)-1, 0)] {
+							select {
+							case <-x.done:
+							default:
+								stable = false
+							}
+						}
+						if !stable {
+							replayDue = false
+							break
+						}
+						if r, ok := w.sm.GetActiveReceiver(c08Shard("S", i)); ok {
+							if pr, ok := r.(*proxyStreamReceiver); ok {
+								if lw := pr.GetLastWatermark(); lw != nil && lw.ExclusiveHighWatermark > 0 {
+									replayDue = true
+								}
+							}
+						}
+					}
+				}
+				defer0 := func() {}
+				if replayDue {
+					defer0 = func() {
+						li := w.incsOf("T", idx)
+						nw := li[len(li)-1]
+						if res.viol == "" && !nw.ended && len(nw.ss.Taken()) == 0 {
+							res.viol = fmt.Sprintf("T%d: a source shard's receiver holds a pending watermark, but the re-established target stream (order %q) was not sent it when it registered (watermark replay)", idx, o.Order)
+						}
+						res.classes["watermark_replay_due_at_a_re_registration"] = true
+					}
+				}
 				if old == nil {
 					openSnap(o.Side, idx, false)
 					break
@@ -352,6 +390,7 @@ func c08Run(t *testing.T, c c08Case) (res c08Result) {
 					vfQuiesce()
 					nw.snap = c08Snapshot(w, c08Shard(o.Side, idx))
 				}
+				defer0()
 			case "window":
 				incs := w.incsOf(o.Side, idx)
 				if len(incs) == 0 || incs[len(incs)-1].ended {
